@@ -551,6 +551,26 @@ pub fn scaling_histories(max_video: usize) -> Vec<(Cfg, Vec<Op>, String)> {
                 out.push((cfg, ops, format!("look-alike {} in field {field}", String::from_utf8_lossy(code))));
             }
         }
+        // the same code inside a parameter set of the first keyframe (it is copied into the
+        // sample description, i.e. into the moov), followed by 0, 4, 8 or 12 further bytes
+        for tail in [0usize, 4, 8, 12] {
+            for (fs, audio) in [(true, None), (true, Some(ACodec::Opus)), (false, None)] {
+                for in_sps in [false, true] {
+                    let cfg = Cfg::basic(VCodec::H264, audio, fs);
+                    let (mut sps, mut pps) = (oracle::frames::h264_sps(0), oracle::frames::h264_pps(0));
+                    let target = if in_sps { &mut sps } else { &mut pps };
+                    target.extend_from_slice(code);
+                    target.extend((0..tail).map(|i| 0x91 + i as u8));
+                    let key = oracle::frames::annexb_mode(&[sps, pps, vec![0x65, 0x88, 0x84, 0x21]], tail as u32);
+                    let mut ops = vec![Op::WV { pts: T(0.0), data: Bytes::new(key), key: true }];
+                    ops.push(Op::WV { pts: T(unit), data: Bytes::new(video_frame(VCodec::H264, false, false, 2, 5).0), key: false });
+                    if let Some(a) = audio {
+                        ops.push(Op::WA { pts: T(unit), data: Bytes::new(audio_frame(a, 1, 6).0) });
+                    }
+                    out.push((cfg, ops, format!("look-alike {} in a parameter set (+{tail} bytes)", String::from_utf8_lossy(code))));
+                }
+            }
+        }
     }
     // payload shapes for the codecs whose frames are stored unchanged: bytes that look like Annex B
     // start codes, ADTS sync words or trailing padding must survive (AV1, VP9, Opus; AAC payload)
